@@ -99,6 +99,8 @@ _FINDINGS = None
 def known_finding(pid: str, bucket: str):
     '''return the entry when (property, bucket) is a listed *known* finding'''
     global _FINDINGS  # pylint: disable=global-statement
+    if os.environ.get('VERIF_IGNORE_KNOWN'):
+        return None  # development aid: re-derive replays of known findings
     if _FINDINGS is None:
         _FINDINGS = load_findings()
     for f in _FINDINGS:
